@@ -7,11 +7,11 @@ from .._change import ListInsert
 from .._change import Replace
 from .._global_state import state
 from .._sentinels import undefined
-from .._unmanaged import Unmanaged
 from .._utils import normalize
 from .._utils import value_to_token
 from .generic_value import GenericValue
 from .generic_value import clone
+from .undecided_value import contains_unmanaged
 
 
 class CollectionValue(GenericValue):
@@ -61,7 +61,7 @@ class CollectionValue(GenericValue):
                 continue
 
             # check for update
-            if isinstance(old_value, Unmanaged) or isinstance(old_node, ast.JoinedStr):
+            if contains_unmanaged(old_value, old_node):
                 # the parts which are controlled by the user are not changed
                 continue
 
